@@ -39,7 +39,7 @@ func (e *kvElection) validationLoop(ctx context.Context) {
 			isValid, err := e.validateToken(validationCtx)
 			cancel()
 
-			verifYield("validation.result")
+			e.verifYield("validation.result")
 			if err != nil {
 				consecutiveFailures++
 				log := e.getLogger()
